@@ -28,6 +28,12 @@ func ExtractCharClassRanges(re *syntax.Regexp) [][2]byte {
 		return nil
 	}
 
+	// The searcher always takes the longest run: a non-greedy [a-z]+? must stop after
+	// one byte, so it is not a pattern this searcher implements.
+	if re.Flags&syntax.NonGreedy != 0 {
+		return nil
+	}
+
 	if len(re.Sub) != 1 {
 		return nil
 	}
